@@ -169,6 +169,12 @@ for _k, _t in {"C03": {**_FL_CURVE, **_FL_BOUNDS}, "C04": {**_FL_FIELD, **_FL_BO
     PROPS[_k]["gens"] = sorted(set(PROPS[_k].get("gens") or []) | {"go2ir", "flevel"})
     # T2: the real functions against the regenerated field-level programs (validates the field-level translator); serial builds only
     PROPS[_k]["streams"] = PROPS[_k]["streams"] + [("T2", 3000, {"configs": ["purego", "force32bit"]})]
+# Every API-level property also executes its own request stream from 16 goroutines sharing all package-level state: scratch
+# space moved to package level "to save an allocation" is invisible to a sequential run (seeds C07-m8, C03-m8, C11-m8).
+for _k, _s in {"C01": ("V1", 800), "C02": ("K1", 500), "C05": ("S1", 1200), "C07": ("X1", 800), "C10": ("D1", 800), "C14": ("H2", 500),
+               "C15": ("E1", 400), "C17": ("R1", 1500), "C16": ("L1", 800), "C04": ("F2", 1500)}.items():
+    if not any(x[0] == _s[0] and len(x) > 2 and x[2].get("parallel") for x in PROPS[_k]["streams"]):
+        PROPS[_k]["streams"] = PROPS[_k]["streams"] + [(_s[0], _s[1], {"parallel": 16, "configs": ["default", "purego"]})]
 NOT_YET = {}
 for _k, _c in PROPS.items():
     assert _c.get("configs_quick") and _c.get("configs_thorough"), "property %s lacks a configuration list" % _k
